@@ -35,7 +35,8 @@ import deep.logging
 from deep.api.tracepoint.eventsnapshot import WATCH_SOURCE_CAPTURE
 from deep.logging import logging
 from deep.api.tracepoint import WatchResult, Variable
-from deep.processor.variable_set_processor import VariableSetProcessor, VariableCacheProvider
+from deep.processor.variable_set_processor import VariableSetProcessor, VariableCacheProvider, \
+    VariableProcessorConfig
 from deep.utils import str2bool
 
 if TYPE_CHECKING:
@@ -57,6 +58,7 @@ class ActionContext(abc.ABC):
         self.location_action: 'LocationAction' = action
         # each action collects into its own variable table, so snapshots of one event do not share or alter state
         self.var_cache = VariableCacheProvider()
+        self._collection_config = None
         self._triggered = False
 
     def __enter__(self):
@@ -68,6 +70,11 @@ class ActionContext(abc.ABC):
         # the fire is recorded when it is reserved, in process()
         pass
 
+    @property
+    def collection_config(self) -> VariableProcessorConfig:
+        """The limits that apply to every value collected for this action (frame variables, watches, captures)."""
+        return self._collection_config or VariableProcessorConfig()
+
     def eval_watch(self, watch: str, source: str) -> Tuple[WatchResult, Dict[str, Variable], str]:
         """
         Evaluate an expression in the current frame.
@@ -76,7 +83,7 @@ class ActionContext(abc.ABC):
         :param watch: The watch expression to evaluate.
         :return: Tuple with WatchResult, collected variables, and the log string for the expression
         """
-        var_processor = VariableSetProcessor({}, self.var_cache)
+        var_processor = VariableSetProcessor({}, self.var_cache, self.collection_config)
 
         try:
             result = self.trigger_context.evaluate_expression(watch)
@@ -98,7 +105,7 @@ class ActionContext(abc.ABC):
         :param variable: the value to process
         :return: Tuple with WatchResult, collected variables, and the log string for the expression
         """
-        var_processor = VariableSetProcessor({}, self.var_cache)
+        var_processor = VariableSetProcessor({}, self.var_cache, self.collection_config)
         variable_id, log_str = var_processor.process_variable(name, variable)
         if variable_id.vid is None:
             return WatchResult(WATCH_SOURCE_CAPTURE, name, None, "variable limit reached"), {}, log_str
